@@ -1131,6 +1131,14 @@ func rg2PanicAlwaysRecovered(w *World) {
 				out = out.with("settled")
 			}
 		})
+		// `v := <task>.aborted()`: v stands for the abort state
+		if as, ok := n.(*ast.AssignStmt); ok && len(as.Lhs) == 1 && len(as.Rhs) == 1 {
+			if c, ok := ast.Unparen(as.Rhs[0]).(*ast.CallExpr); ok && callee(info, c) == aborted.Obj {
+				out = out.with("ab:" + render(as.Lhs[0]))
+			} else {
+				out = out.without("ab:" + render(as.Lhs[0]))
+			}
+		}
 		return out
 	}
 	d.Branch = func(leaf ast.Expr, truth bool, s Facts) Facts {
@@ -1138,8 +1146,13 @@ func rg2PanicAlwaysRecovered(w *World) {
 		if !ok || !isNilIdent(info, be.Y) {
 			return s
 		}
-		c, ok := ast.Unparen(be.X).(*ast.CallExpr)
-		if !ok || callee(info, c) != aborted.Obj {
+		isAbortState := false
+		if c, ok := ast.Unparen(be.X).(*ast.CallExpr); ok && callee(info, c) == aborted.Obj {
+			isAbortState = true
+		} else if s["ab:"+render(be.X)] {
+			isAbortState = true
+		}
+		if !isAbortState {
 			return s
 		}
 		if (be.Op == token.NEQ) == truth {
@@ -1189,25 +1202,76 @@ func reIncTransferShape(w *World) {
 		return
 	}
 	info := tf.Pkg.TypesInfo
-	isSwap := func(n ast.Node) bool {
-		as, ok := n.(*ast.AssignStmt)
-		if !ok || len(as.Lhs) != 2 || len(as.Rhs) != 2 {
-			return false
+	// symbolic values of the two flags along each path: facts "val:<expr>=<symbol>"; the initial
+	// symbol of a flag expression e is "e@0". A tuple assignment, or the same swap written with a
+	// temporary, ends with each flag holding the other's initial symbol.
+	flagExprs := map[string]bool{}
+	ast.Inspect(tf.Decl.Body, func(x ast.Node) bool {
+		if e, ok := x.(ast.Expr); ok && selField(info, e) == holding {
+			flagExprs[render(e)] = true
 		}
-		for _, e := range append(append([]ast.Expr{}, as.Lhs...), as.Rhs...) {
-			if selField(info, e) != holding {
-				return false
+		return true
+	})
+	symOf := func(st Facts, e ast.Expr) string {
+		k := render(e)
+		for f := range st {
+			if strings.HasPrefix(f, "val:"+k+"=") {
+				return strings.TrimPrefix(f, "val:"+k+"=")
 			}
 		}
-		return render(as.Lhs[0]) == render(as.Rhs[1]) && render(as.Lhs[1]) == render(as.Rhs[0]) && render(as.Lhs[0]) != render(as.Lhs[1])
+		if flagExprs[k] {
+			return k + "@0"
+		}
+		return ""
+	}
+	setSym := func(st Facts, k, v string) Facts {
+		for f := range st {
+			if strings.HasPrefix(f, "val:"+k+"=") {
+				st = st.without(f)
+			}
+		}
+		if v != "" {
+			st = st.with("val:" + k + "=" + v)
+		}
+		return st
 	}
 	g := buildCFG(info, tf.Decl.Body)
 	d := &Dataflow{G: g, Must: true, Init: Facts{}}
 	d.Transfer = func(n ast.Node, in Facts) Facts {
-		if isSwap(n) {
-			return in.with("swapped")
+		as, ok := n.(*ast.AssignStmt)
+		if !ok || len(as.Lhs) != len(as.Rhs) {
+			return in
 		}
-		return in
+		vals := make([]string, len(as.Rhs))
+		for i, r := range as.Rhs {
+			vals[i] = symOf(in, r)
+		}
+		out := in
+		for i, l := range as.Lhs {
+			out = setSym(out, render(l), vals[i])
+		}
+		var flags []string
+		for k := range flagExprs {
+			flags = append(flags, k)
+		}
+		if len(flags) == 2 {
+			a, b := flags[0], flags[1]
+			va, vb := "", ""
+			for f := range out {
+				if strings.HasPrefix(f, "val:"+a+"=") {
+					va = strings.TrimPrefix(f, "val:"+a+"=")
+				}
+				if strings.HasPrefix(f, "val:"+b+"=") {
+					vb = strings.TrimPrefix(f, "val:"+b+"=")
+				}
+			}
+			if va == b+"@0" && vb == a+"@0" {
+				out = out.with("swapped")
+			} else {
+				out = out.without("swapped")
+			}
+		}
+		return out
 	}
 	d.Run()
 	var bad []string
